@@ -162,6 +162,10 @@ TS_POOL = [(4, 4), (3, 4), (2, 4), (6, 8), (5, 4), (2, 2), (3, 8), (9, 8), (12, 
 
 
 # ====================================================================== generation
+ALL_ARTICULATIONS = ["accent", "strong-accent", "staccato", "tenuto", "detached-legato", "staccatissimo", "spiccato",
+                     "scoop", "plop", "doit", "falloff", "breath-mark", "caesura", "stress", "unstress", "soft-accent"]
+
+
 def gen_part(rng, tier="quick"):
     """single-divs part with explicit measures (optional pickup), ts/ks changes at bar starts"""
     divs = rng.choice([1, 2, 3, 4, 4, 6, 8, 12, 16, 24, 48, 96, 480])
@@ -242,7 +246,13 @@ def gen_part(rng, tier="quick"):
                          "oct": octv, "voice": v, "staff": staff}
                     r = rng.random()
                     if r < 0.2:
-                        n["art"] = rng.choice([["staccato"], ["accent"], ["staccato", "accent"], ["tenuto"], ["accent", "tenuto"]])
+                        if rng.random() < 0.5:
+                            n["art"] = rng.choice([["staccato"], ["accent"], ["staccato", "accent"], ["tenuto"], ["accent", "tenuto"]])
+                        else:
+                            # any of the articulation names a score can carry (MusicXML): the reader supports
+                            # staccato and accent only, names that merely start with / contain one of them
+                            # (staccatissimo, strong-accent, soft-accent) must not be taken for it
+                            n["art"] = rng.sample(ALL_ARTICULATIONS, rng.choice([1, 1, 2, 3]))
                     nid += 1
                     if prev is not None and c == 0:
                         prev["tie"] = n["id"]
